@@ -245,6 +245,18 @@ func runC14(c *core.Ctx) {
 			"the ORDER BY flag is not set/cleared for the same node type: random() after an ORDER BY term would stay unrewritten (or be rewritten inside it)", nil)
 	}
 
+	// Visit must always return a visitor: the walker calls VisitEnd (which
+	// clears the ORDER BY flag) only for nodes whose Visit returned non-nil
+	nilVisitor := false
+	for _, r := range an.Returns(visit) {
+		if len(r.Results) == 3 && an.IsNilConst(an.Unwrap(r.Results[0])) {
+			nilVisitor = true
+		}
+	}
+	c.Result(!nilVisitor, "C14.d", "PAIR", "Visit:returns-visitor", c.P.Pos(visit.Pos()),
+		"Visit never returns a nil visitor, so every Visit is paired with its VisitEnd",
+		"Visit can return a nil visitor: the walker then skips VisitEnd for that node, the ORDER BY flag stays set and later random() calls in the statement are not rewritten", nil)
+
 	// Process: text replaced iff rewritten
 	if proc := c.Fn("C14.d", "command/sql", "Process"); proc != nil {
 		var do ssa.CallInstruction
